@@ -615,11 +615,79 @@ def judge(ctx, c, r, stats):
             print(f"SPEC-MISMATCH C07: {mism[0]} :: {describe(c)}", flush=True)
 
 
+# ------------------------------------------------------------------ rule-set reuse across models (session 6, seeded C07-m12)
+def reuse_history():
+    """ONE RewriteRuleSet object (an as_function rule) applied to a sequence of models in one process; the later models already
+    hold model-local functions custom::AddRelu under several overloads.  Rewrite.tla's ExtractFunction picks an overload that is
+    fresh IN THE MODEL AT HAND: every pre-existing function keeps its body, every call node refers to a function of the model, and
+    exactly one function is added whose body is the matched nodes.  -> list of failure texts"""
+    from onnx import TensorProto as T
+    from onnx import helper as h
+
+    from onnxscript import ir
+    from onnxscript.rewriter import pattern
+
+    def fn(overload, k):
+        f = h.make_function("custom", "AddRelu", ["a", "b"], ["c"],
+                            [h.make_node("Add", ["a", "b"], ["t"]), h.make_node("Constant", [], ["k"], value_float=float(k)),
+                             h.make_node("Add", ["t", "k"], ["c"])], [h.make_opsetid("", 18)])
+        f.overload = overload
+        return f
+
+    def model(existing):
+        nodes = [h.make_node("Add", ["x", "y"], ["s"]), h.make_node("Relu", ["s"], ["r"])]
+        outs = ["r"]
+        for i, (ov, _k) in enumerate(existing):
+            n = h.make_node("AddRelu", ["x", "y"], [f"e{i}"], domain="custom")
+            n.overload = ov
+            nodes.append(n)
+            outs.append(f"e{i}")
+        g = h.make_graph(nodes, "g", [h.make_tensor_value_info(n, T.FLOAT, [2]) for n in ("x", "y")],
+                         [h.make_tensor_value_info(o, T.FLOAT, [2]) for o in outs])
+        return h.make_model(g, opset_imports=[h.make_opsetid("", 18), h.make_opsetid("custom", 1)], ir_version=10,
+                            functions=[fn(ov, k) for ov, k in existing])
+
+    def sig(f):
+        return [(n.op_type, n.domain, list(n.input), list(n.output), [(a.name, h.get_attribute_value(a)) for a in n.attribute]) for n in f.node]
+
+    rs = pattern.RewriteRuleSet([pattern.RewriteRule(lambda op, x, y: op.Relu(op.Add(x, y)),
+                                                     lambda op, x, y: op.AddRelu(x, y, _domain="custom"), as_function=True)])
+    fails = []
+    history = ([], [("1", 2.0), ("2", 5.0)], [("1", 7.0)], [("2", 3.0), ("3", 4.0), ("4", 6.0)])
+    for step, existing in enumerate(history):
+        m = model(existing)
+        before = {(f.domain, f.name, f.overload): sig(f) for f in m.functions}
+        im = ir.serde.deserialize_model(m)
+        try:
+            n = rs.apply_to_model(im)
+            m2 = ir.serde.serialize_model(im)
+        except Exception as e:  # noqa: BLE001
+            fails.append(f"step {step} (model with functions {sorted(before)}): raised {type(e).__name__}: {str(e)[:200]}")
+            continue
+        after = {(f.domain, f.name, f.overload): f for f in m2.functions}
+        where = f"step {step} of the history (rule set already used on {step} model(s); this model has {sorted(k[2] for k in before)})"
+        if n != 1:
+            fails.append(f"{where}: {n} applications, 1 instance")
+        for k, b in before.items():
+            if k not in after or sig(after[k]) != b:
+                fails.append(f"{where}: the pre-existing function {k} was changed by the rewrite")
+        calls = [(nd.domain, nd.op_type, nd.overload) for nd in m2.graph.node if nd.domain == "custom"]
+        if not all(c in after for c in calls):
+            fails.append(f"{where}: a call node refers to no function of the model: {[c for c in calls if c not in after]}")
+        new = [k for k in after if k not in before]
+        if len(new) != 1 or [x.op_type for x in after[new[0]].node] != ["Add", "Relu"]:
+            fails.append(f"{where}: expected exactly one new function holding the matched nodes, got {new}")
+    return fails
+
+
 def run(ctx: core.Ctx):
     cfgs = ["Rewrite_quick.cfg"] if ctx.quick else ["Rewrite_quick.cfg", "Rewrite_thorough.cfg"]
     import time
 
     t0 = time.time()
+    for msg in reuse_history():
+        ctx.report({"kind": "reuse_history", "failure": msg}, f"one rule set, several models: {msg}")
+    ctx.add("rule_set_reuse_histories")
     cases = tlc_all(ctx, cfgs, 600 if ctx.quick else 3000)
     t1 = time.time()
     ctx.set("spec_cases", len(cases))
